@@ -417,11 +417,38 @@ func init() {
 				Required: []string{"transition.repeated"},
 			}
 			s6 := unionFullScenario("C19", "c19-union-full-pipeline", tier, c19Step, nil, tierPick(tier, 3, 5))
-			for _, sc := range []*engine.Scenario{s1, s2, s3, s4, s5, s6} {
+			// three assets on one validator with tied weights (0.3/0.3/0.1, equal stakes): normalised shares that do not add up to 1
+			// and a tie for the largest - any choice "by iteration order" among equals shows here
+			tcfg := world.DefaultConfig()
+			tcfg.Assets = []world.AssetCfg{
+				{Denom: "aaa", Weight: "0.3", Min: "0", Max: "5", TakeRate: "0"}, {Denom: "bbb", Weight: "0.3", Min: "0", Max: "5", TakeRate: "0"},
+				{Denom: "ccc", Weight: "0.1", Min: "0", Max: "5", TakeRate: "0"},
+			}
+			tcfg.DelFunds["ccc"] = "1000000000000"
+			s7 := &engine.Scenario{
+				Property: "C19", Name: "c19-tied-assets", Cfg: tcfg, Stores: world.ModuleStores,
+				Seeds:      [][]world.Op{{opDel(0, 0, "aaa", "1000000"), opDel(0, 0, "bbb", "1000000"), opDel(1, 0, "ccc", "1000000"), opBlock(1)}},
+				ClassNames: classNames, Budgets: tierPick(tier, []int{2, 0, 2, 2, 0}, []int{3, 1, 2, 3, 0}), MaxDepth: tierPick(tier, 5, 7),
+				Ops: func(n *engine.Node) []world.Op {
+					ops := []world.Op{
+						{K: world.KClaim, D: 0, V: 0, Denom: "aaa", Class: ClsUser}, {K: world.KClaim, D: 1, V: 0, Denom: "ccc", Class: ClsUser},
+						{K: world.KDelegate, D: 0, V: 0, Denom: "bbb", Amt: "5", Class: ClsUser},
+						{K: world.KSlash, V: 0, F: "0.5", Class: ClsSlash},
+						{K: world.KBlock, Dt: int64(U), Class: ClsBlock},
+					}
+					if atBlockStart(n) {
+						ops = append(ops, world.Op{K: world.KReward, Denom: "stake", Amt: "1000003", Class: ClsEnv}, world.Op{K: world.KReward, Denom: "stake", Amt: "7", Class: ClsEnv})
+					}
+					return ops
+				},
+				Step: c19Step, SeedStep: true,
+				Required: []string{"transition.repeated"},
+			}
+			for _, sc := range []*engine.Scenario{s1, s2, s3, s4, s5, s6, s7} {
 				sc.Late = c19Late
 				sc.Required = append(sc.Required, "transition.repeated_after_subtree")
 			}
-			return []*engine.Scenario{s1, s2, s3, s4, s5, s6}
+			return []*engine.Scenario{s7, s1, s2, s3, s4, s5, s6}
 		},
 		Extra:       func(tier string) ([]engine.Failure, map[string]any) { return staticRule() },
 		NoReproduce: true,
